@@ -44,6 +44,17 @@ def site_cfgs(site, rng):
     """(config with the subsystem on [faulted run], baseline config) as override dicts."""
     from vlib.cfggen import gate_cfg, merge
 
+    if site.startswith("boot"):
+        # GEL learning + hybrid rerank healthy in both runs: what the boot hook does to state.graph becomes visible in
+        # the canonical t2 records of later turns
+        both = merge(gate_cfg(rng, "gel", True), gate_cfg(rng, "hybrid", True))
+        for k in ("merge", "split", "promotion"):
+            both["graph"][k]["enabled"] = False
+        both["graph"].update({"coactivation_threshold": 0.0, "observe_top_k": 8, "pair_cap_per_obs": 64})
+        both["graph"]["update"] = {"mode": "additive", "alpha": 0.5}
+        both["graph"]["decay"] = {"half_life_turns": 100000, "floor": 0.0}
+        both["t2"]["hybrid"].update({"edge_threshold": 0.0, "lambda_graph": 1.0, "k_max": 128, "anchor_top_m": 8, "walk_hops": 1, "max_bonus": 10.0})
+        return both, copy.deepcopy(both)
     if site.startswith("gel-"):
         on = gate_cfg(rng, "gel", True)
         on["graph"]["merge"]["min_avg_w"] = 0.3
@@ -224,10 +235,11 @@ def gen_case(rng, sites=None, exc_i=None):
     cfg["t2"]["cache"] = {"enabled": False}
     if sites is None:
         # combinations take at most one site per group whose off/idle baselines would contradict each other
-        groups = [["boot-failpoint", "boot-garbage"], ["fusion", "mmr", "quality-trace"], ["llm-adapter-build", "llm-adapter-ci-provider"], ["store-batch", "store-all", "store-some"]]
+# (the boot legs keep the hybrid reranker healthy in both runs, so hybrid-rerank shares their group)
+        groups = [["boot-failpoint", "boot-garbage", "hybrid-rerank"], ["fusion", "mmr", "quality-trace"], ["llm-adapter-build", "llm-adapter-ci-provider"], ["store-batch", "store-all", "store-some"]]
         pool = [s for s in SITES if not any(s in g for g in groups)] + [rng.choice(g) for g in groups]
         sites = rng.sample(pool, rng.randint(2, 4))
-    turns = gen_turns(rng, world, n=(2, 3), agents=("A",), plans=False)
+    turns = gen_turns(rng, world, n=(3, 4) if any(x.startswith("boot") for x in sites) else (2, 3), agents=("A",), plans=False)
     for t in turns:
         t["plan"] = {"ops": [{"kind": "Speak"}, {"kind": "EditGraph"}], "deltas": [["node", f"n:{rng.choice('abcd')}", "weight", rng.choice([0.1, -0.2, 0.3]), 1] for _ in range(rng.randint(1, 3))],
                      "reflection": True}
@@ -247,8 +259,11 @@ def run(case, faulted, sess):
         on, base = site_cfgs(s, random.Random(f"{case['seed']}/{s}"))
         cfg = merge(cfg, on if faulted else base)
     boot = any(s.startswith("boot") for s in case["sites"])
+    world = copy.deepcopy(case["world"])
+    if boot:
+        world["gel"] = None  # a state that has not booted yet carries no GEL graph (the loader installs the containers)
     try:
-        env = TurnEnv(cfg, copy.deepcopy(case["world"]), boot_loaded=not boot)
+        env = TurnEnv(cfg, world, boot_loaded=not boot)
     except Exception as ex:
         return {"rejected": str(ex)[:150]}
     exc = EXCS[case["exc"]]
